@@ -452,7 +452,32 @@ def rule_partial_walk(ck):
     ck.ob("mpt.signal_frames", "expression-rule-sites-found", True, f"{sorted(set(need_unit))}", "")
 
 
+def rule_frame_registers_fresh(ck):
+    """registers of frame k are a function of the thread's live registers *now*"""
+    prog = ck.prog
+    ck.rule("mpt.frame_registers_fresh", "Debugee::restore_registers_at_frame computes the registers of the selected frame from the thread's current state on every call: each normal return has passed the unwinder (unwind::restore_registers_at_frame), the only shortcut being frame 0 — a remembered result survives instruction steps, which change what frame k is without passing any resume path of Debugee")
+    f = ck.anchor("debugger::debugee::Debugee::restore_registers_at_frame")
+    uw = {c.bb for c in f.calls() if c.name.endswith("unwind::restore_registers_at_frame") or c.name.endswith("DwarfUnwinder::restore_registers_at_frame")}
+    cuts = set()
+    for b, blk in enumerate(f.blocks):
+        t = blk["term"]
+        if t["t"] == "switch":
+            e = expr_of(f, t["discr"])
+            if e[0] == "bin" and e[1] in ("Eq", "Ne") and ("arg", 4) in (e[2], e[3]) and ("const", 0) in (e[2], e[3]):
+                # the frame-0 edge is allowed to return without unwinding
+                zero_val = 1 if e[1] == "Eq" else 0
+                for v, tg in t["arms"]:
+                    if int(v) == zero_val:
+                        cuts.add((b, tg))
+                if zero_val not in {int(v) for v, tg in t["arms"]}:
+                    cuts.add((b, t["otherwise"]))
+    reach = cut_edges_reach(f, [0], uw | f.error_exit_blocks(), cuts)
+    rets = [b for b in f.return_blocks() if b in reach]
+    ck.ob("mpt.frame_registers_fresh", "restore_registers_at_frame/every-answer-comes-from-the-unwinder", bool(uw) and not rets, f"unwinder calls {len(uw)}; returns reachable without it: {rets}", f.loc(), what="registers of a selected frame k >= 1 can be answered from a remembered result: after `step` / `stepi` variables, arguments and the CFA of frame k belong to another activation")
+
+
 def run(ck):
+    rule_frame_registers_fresh(ck)
     rule_partial_walk(ck)
     rule_frame_steps(ck)
     regs.rule_numbering(ck)
